@@ -189,6 +189,10 @@ class Folder2(Folder):
                     return getattr(recv, f.attr)(*self._elts(n.args), **self._kw(n))
                 if isinstance(recv, dict) and f.attr == "setdefault" and not n.keywords:
                     return recv.setdefault(*self._elts(n.args))
+                if isinstance(recv, list) and f.attr == "sort" and not n.args:
+                    kw = self._kw(n)
+                    if set(kw) <= {"key", "reverse"} and (kw.get("key") is None or callable(kw["key"])):
+                        return recv.sort(**kw)  # in place, like the language
                 if isinstance(recv, str) and f.attr in ("zfill", "center", "title", "capitalize", "isupper", "islower", "isalnum", "isnumeric", "isdecimal", "find", "count", "partition", "rpartition", "splitlines", "rsplit") and not n.keywords:
                     return getattr(recv, f.attr)(*self._elts(n.args))
         return super()._f_Call(n)
@@ -267,7 +271,8 @@ def unreached_exits(fdef: ast.AST, cov: set, kinds: Sequence[type] = (ast.Contin
     """[(exit statement, text of the innermost condition it stands under)] for the conditional exits of `fdef` (nested defs
     excluded) that no interpreted run executed although the function itself ran.  `raise` is not listed by default: a refusal is
     loud, not a silent outcome.  With `data` (names of the parameters that carry the input data) only *data-dependent* exits are
-    listed: those inside a loop, or under a condition that mentions a name computed from the data."""
+    listed: continue / break of a loop that goes over something computed from the data, return under a condition that mentions
+    a name computed from the data (or inside such a loop)."""
     body = getattr(fdef, "body", [])
     if not any(id(st) in cov for st in body):
         return []  # the function was never interpreted: nothing to say
@@ -302,7 +307,11 @@ def unreached_exits(fdef: ast.AST, cov: set, kinds: Sequence[type] = (ast.Contin
             if isinstance(st, (ast.FunctionDef, ast.AsyncFunctionDef, ast.ClassDef)):
                 continue
             if isinstance(st, tuple(kinds)):
-                if id(st) not in cov and guard and (tainted is None or in_loop or (names & tainted)):
+                # continue / break end a round of the innermost loop: that matters when the loop goes over the records of the input
+                # (its rows, lines, atoms), not when it goes over a constant list (column names, table rows of the program);
+                # a return matters when its condition looks at the data
+                relevant = tainted is None or (in_loop if isinstance(st, (ast.Continue, ast.Break)) else bool(names & tainted) or in_loop)
+                if id(st) not in cov and guard and relevant:
                     out.append((st, guard))
                 continue
             if isinstance(st, ast.If):
@@ -311,7 +320,9 @@ def unreached_exits(fdef: ast.AST, cov: set, kinds: Sequence[type] = (ast.Contin
                 walk(st.body, t, nm, in_loop)
                 walk(st.orelse, f"not ({t})", nm, in_loop)
             elif isinstance(st, (ast.For, ast.While)):
-                walk(st.body, guard, names, True)
+                over = st.iter if isinstance(st, ast.For) else st.test
+                data_loop = tainted is None or any(isinstance(x, ast.Name) and x.id in tainted for x in ast.walk(over))
+                walk(st.body, guard, names, data_loop)
                 walk(st.orelse, guard, names, in_loop)
             elif isinstance(st, (ast.With, ast.AsyncWith)):
                 walk(st.body, guard, names, in_loop)
@@ -327,6 +338,99 @@ def unreached_exits(fdef: ast.AST, cov: set, kinds: Sequence[type] = (ast.Contin
                     walk(c.body, f"case {ast.unparse(c.pattern)}", names, in_loop)
 
     walk(body, "", frozenset(), False)
+    return out
+
+
+_EMITTERS = {"append", "extend", "add", "write", "writelines", "insert", "setdefault", "update", "appendleft", "put"}
+
+
+def one_way_emissions(fdef: ast.AST, cov: set, data: Sequence[str]) -> List[tuple]:
+    """[(if statement, 'true' | 'false' = the way its condition never went)] for the conditions that every round of a loop over the
+    input's records passes through (statements of the loop body itself), that look at the record of the round, and that went the same
+    way for every representative, where the arm that was always taken *emits* (appends, writes, yields, stores into a container) and
+    the other arm does not: for records on the other side of the condition nothing is emitted - the class of input the
+    representatives do not contain loses its records."""
+    tainted = set(data)
+    changed = True
+    while changed:
+        changed = False
+        for n in ast.walk(fdef):
+            tg: List[ast.AST] = []
+            val: Optional[ast.AST] = None
+            if isinstance(n, ast.Assign):
+                tg, val = list(n.targets), n.value
+            elif isinstance(n, (ast.AnnAssign, ast.AugAssign)) and n.value is not None:
+                tg, val = [n.target], n.value
+            elif isinstance(n, (ast.For, ast.comprehension)):
+                tg, val = [n.target], n.iter
+            if val is None or not any(isinstance(x, ast.Name) and x.id in tainted for x in ast.walk(val)):
+                continue
+            for t in tg:
+                for x in ast.walk(t):
+                    if isinstance(x, ast.Name) and x.id not in tainted:
+                        tainted.add(x.id)
+                        changed = True
+
+    def emits(stmts: Sequence[ast.stmt]) -> bool:
+        for st in stmts:
+            for n in ast.walk(st):
+                if isinstance(n, (ast.Yield, ast.YieldFrom)):
+                    return True
+                if isinstance(n, ast.Call) and isinstance(n.func, ast.Attribute) and n.func.attr in _EMITTERS:
+                    return True
+                if isinstance(n, ast.Assign) and any(isinstance(t, ast.Subscript) for t in n.targets):
+                    return True
+        return False
+
+    out: List[tuple] = []
+
+    def record_names(loop: ast.For) -> set:
+        """names that hold (parts of) the record of the current round: the loop target and what is computed from it in the body"""
+        names = {x.id for x in ast.walk(loop.target) if isinstance(x, ast.Name)}
+        grew = True
+        while grew:
+            grew = False
+            for n in ast.walk(loop):
+                if isinstance(n, ast.Assign) and any(isinstance(x, ast.Name) and x.id in names for x in ast.walk(n.value)):
+                    for t in n.targets:
+                        for x in ast.walk(t):
+                            if isinstance(x, ast.Name) and x.id not in names:
+                                names.add(x.id)
+                                grew = True
+        return names
+
+    def walk(stmts: Sequence[ast.stmt], loop: Optional[ast.For]) -> None:
+        for st in stmts:
+            if isinstance(st, (ast.FunctionDef, ast.AsyncFunctionDef, ast.ClassDef)):
+                continue
+            if isinstance(st, ast.If):
+                if loop is not None and any(st is x for x in loop.body):  # a condition every record of the round passes through
+                    t, f = (id(st), True) in cov, (id(st), False) in cov
+                    rec = record_names(loop)
+                    looks = any(isinstance(x, ast.Name) and x.id in rec for x in ast.walk(st.test))
+                    if looks and t != f:
+                        taken, other = (st.body, st.orelse) if t else (st.orelse, st.body)
+                        if emits(taken) and not emits(other):
+                            out.append((st, "false" if t else "true"))
+                walk(st.body, loop)
+                walk(st.orelse, loop)
+            elif isinstance(st, ast.For):
+                data_loop = any(isinstance(x, ast.Name) and x.id in tainted for x in ast.walk(st.iter))
+                walk(st.body, st if data_loop else None)
+                walk(st.orelse, loop)
+            elif isinstance(st, ast.While):
+                walk(st.body, loop)
+            elif isinstance(st, (ast.With, ast.AsyncWith)):
+                walk(st.body, loop)
+            elif isinstance(st, ast.Try):
+                walk(st.body, loop)
+                for h in st.handlers:
+                    walk(h.body, loop)
+                walk(st.orelse, loop)
+                walk(st.finalbody, loop)
+
+    if any(id(st) in cov for st in getattr(fdef, "body", [])):
+        walk(getattr(fdef, "body", []), None)
     return out
 
 
@@ -347,6 +451,11 @@ class BlockEval2(BlockEval):
             _COVERAGE.add(id(st))
         if isinstance(st, ast.FunctionDef):
             self.env[st.name] = func_callable(self.repo, self.module, st, self.env, live=True)
+            return
+        if isinstance(st, ast.If) and _COVERAGE is not None:
+            v = bool(self.fold(st.test))
+            _COVERAGE.add((id(st), v))  # which way the condition went (both ways over all representatives = both classes seen)
+            self._block(st.body if v else st.orelse)
             return
         if isinstance(st, ast.Raise):
             name = "Exception"
